@@ -55,16 +55,32 @@ def _class_pattern(items):
     return "[" + ("^" if neg else "") + "".join(out) + "]"
 
 
-def regex_to_z3(pattern, charset, flags=0):
+def bytes_re(chars):
+    "z3 regex matching the UTF-8 encoding (bytes as code points 0..255) of exactly one character of `chars`"
+    single = [c for c in chars if len(c.encode("utf-8")) == 1]
+    multi = [c for c in chars if len(c.encode("utf-8")) > 1]
+    parts = []
+    if single:
+        parts.append(charset_re(single))
+    for c in sorted(multi):
+        parts.append(z3.Re(z3.StringVal("".join(chr(b) for b in c.encode("utf-8")))))
+    if not parts:
+        return z3.Empty(z3.ReSort(z3.StringSort()))
+    return parts[0] if len(parts) == 1 else z3.Union(*parts)
+
+
+def regex_to_z3(pattern, charset, flags=0, emit=None):
     """z3 regular expression of `pattern` restricted to strings over `charset`.
     Single-character predicates (literals under flags, classes, categories, dot) are evaluated by
-    CPython's `re` on each character of the charset; the structure is translated here."""
+    CPython's `re` on each character of the charset; the structure is translated here.
+    `emit(chars)` renders a set of characters (default: one character; bytes_re: its UTF-8 bytes)."""
     charset = sorted(set(charset))
     tree = P.parse(pattern, flags)
     gflags = tree.state.flags
+    emit = emit or charset_re
 
     def one(src, fl):
-        return charset_re([c for c in charset if re.fullmatch(src, c, fl) is not None])
+        return emit([c for c in charset if re.fullmatch(src, c, fl) is not None])
 
     def seq(items, fl):
         parts = [node(op, av, fl) for op, av in items]
@@ -136,3 +152,98 @@ def z3_str(model, var):
     v = model.eval(var, model_completion=True)
     raw = v.as_string()
     return re.sub(r"\\u\{([0-9a-fA-F]+)\}", lambda m: chr(int(m.group(1), 16)), raw)
+
+
+def encode_cfg_membership(rules, V, S, s, n, term_eq=None):
+    """z3 Bool: the grammar (rules [(head, body)], terminals V, start S) derives the symbolic string s of
+    length exactly n.  Bounded inside encoding D[X,i,k]; nullable set and unary(-after-null) closure are
+    computed concretely here (independent of /repo).  Rules that differ in one terminal position only are
+    grouped into character classes."""
+    rules = [(h, tuple(b)) for h, b in rules if h not in V]
+    NT = []
+    for h, b in rules:
+        for x in (h,) + b:
+            if x not in V and x not in NT:
+                NT.append(x)
+    if S not in NT:
+        NT.append(S)
+    nullable = set()
+    ch = True
+    while ch:
+        ch = False
+        for h, b in rules:
+            if h not in nullable and all((y not in V) and y in nullable for y in b):
+                nullable.add(h)
+                ch = True
+    # unary-like closure: X =>* Y through rules whose other symbols are all nullable
+    U = {X: {X} for X in NT}
+    ch = True
+    while ch:
+        ch = False
+        for h, b in rules:
+            for t, y in enumerate(b):
+                if y in V:
+                    continue
+                if all((z not in V) and z in nullable for j, z in enumerate(b) if j != t):
+                    for X in NT:
+                        if h in U[X] and y not in U[X]:
+                            U[X].add(y)
+                            ch = True
+    if n == 0:
+        return z3.BoolVal(S in nullable)
+    # group rules by their shape with terminals abstracted
+    groups = {}
+    for h, b in rules:
+        if not b:
+            continue
+        tpos = [t for t, y in enumerate(b) if y in V]
+        if len(tpos) == 1:
+            key = (h, tuple("\0T" if y in V else y for y in b), tpos[0])
+            groups.setdefault(key, set()).add(b[tpos[0]])
+        else:
+            groups.setdefault((h, b, None), set())
+    chars = [z3.SubString(s, i, 1) for i in range(n)]
+    if term_eq is None:
+        def term_eq(i, cs):
+            return z3.InRe(chars[i], charset_re(cs))
+    D = {}
+
+    def val(y, i, k, cls=None):
+        if cls is not None:
+            return term_eq(i, cls) if k == i + 1 else z3.BoolVal(False)
+        if y in V:
+            return term_eq(i, {y}) if k == i + 1 else z3.BoolVal(False)
+        if k == i:
+            return z3.BoolVal(y in nullable)
+        return D[y, i, k]
+
+    for d in range(1, n + 1):
+        for i in range(n - d + 1):
+            k = i + d
+            base = {X: [] for X in NT}
+            for (h, b, tp), cls in groups.items():
+                m = len(b)
+                for cuts in itertools.combinations_with_replacement(range(i, k + 1), m - 1):
+                    js = (i,) + cuts + (k,)
+                    full = [t for t in range(m) if js[t] == i and js[t + 1] == k]
+                    if len(full) == 1 and (tp is None or full[0] != tp) and b[full[0]] not in V and b[full[0]] != "\0T" \
+                            and all(js[t] == js[t + 1] for t in range(m) if t != full[0]):
+                        continue  # unary-like step, handled by the closure U
+                    conj = []
+                    ok = True
+                    for t in range(m):
+                        v = val(b[t], js[t], js[t + 1], cls if t == tp else None)
+                        if z3.is_false(v):
+                            ok = False
+                            break
+                        if not z3.is_true(v):
+                            conj.append(v)
+                    if ok:
+                        base[h].append(z3.And(*conj) if conj else z3.BoolVal(True))
+            bexpr = {X: (z3.Or(*alts) if alts else z3.BoolVal(False)) for X, alts in base.items()}
+            for X in NT:
+                D[X, i, k] = z3.simplify(z3.Or(*[bexpr[Y] for Y in U[X]]))
+    return D[S, 0, n]
+
+
+import itertools  # noqa: E402
